@@ -373,7 +373,9 @@ def validate_traces(module, cfg, traces, shards=None, timeout=3000, extra_env=No
 # known findings
 # --------------------------------------------------------------------------
 def load_findings(prop):
-    path = os.path.join(VERIF, 'known_findings.json')
+    """Known findings of one property: findings.d/<prop>.json (canonical, committed,
+    never written at run time).  known_findings.json is the merged view for readers."""
+    path = os.path.join(VERIF, 'findings.d', prop + '.json')
     if not os.path.exists(path):
         return []
     with open(path) as f:
